@@ -94,6 +94,21 @@ PROPS = {
                                      'zero-length reads return before the error state is touched: neither success nor failure is asserted for them'],
         floor={'quick': 200, 'thorough': 500},
     ),
+    'C02': dict(
+        runs=[dict(src='c02_conversions.c'), dict(src='c02_conversions.c', variant='nosse', shards=8), dict(src='c02_conversions.c', variant='fast', shards=8, thorough_only=True)],
+        level='exploration',
+        rule=('case = (container, encoding in 8/16/24/32-bit PCM, float, double, u-law, A-law, byte order, direction write|read, caller type, settings: '
+              'norm on/off, clipping, SCALE_INT_FLOAT_WRITE, SCALE_FLOAT_INT_READ). write: ~65536 values (all shorts; ints; float grid, rounding ties, '
+              'powers of two, values approaching +-1, out-of-range under clipping) are written and the stored codes are decoded from the file image by the '
+              'monitor and compared with an independent model; read: the data section is overwritten with monitor-chosen codes (all 2^8 / 2^16 codes, '
+              'sampled 24/32-bit and fp patterns) and read through the four APIs. Stride 1 for RAW and WAV, 7 for other containers in quick; 1 everywhere in '
+              'thorough. Run on the SSE2 (asan) and libm-lrint (nosse) builds; thorough adds -O2. distinct = hash(format, endian, direction, type, settings)'),
+        assumptions=COMMON_ASSUME + ['the conversion model (c02_conversions.c, g711ref.h) is written from docs/api.md and ITU-T G.711, not from the library',
+                                     'float->int: |code - x*(2^(w-1)-1)| <= 1/2 + 2^-22|.| (float) / 2^-50 (double); ties may go either way; under clipping the in-range band spans the constants 2^(w-1)-1 and 2^(w-1)',
+                                     'unclipped out-of-range float input and NaN/Inf are outside the property and only run for memory safety'],
+        floor={'quick': 300, 'thorough': 1000},
+        timeout={'quick': 3000, 'thorough': 14000},
+    ),
 }
 
 NOT_APPLICABLE = {}
